@@ -265,6 +265,6 @@ LEVEL = 'exploration'
 TECHNIQUE = 'runtime oracle: eval round-trip against a canonical-form reference over bounded-exhaustive + random value trees, with contracts on the string helpers'
 LEVEL_TEXT = ('Every generated (value, configuration) is printed by the real pformat and the output is evaluated and compared, type by type, '
               'with the canonical form of the input; all trees up to 3 (thorough 4) nodes over an adversarial leaf alphabet are covered '
-              'exhaustively, larger ones randomly. Held-on-what-was-observed, not a proof.')
+              'exhaustively, larger ones randomly (a fifth of them with the same container object at two places), plus key-sorting families and big containers of 45 .. 10000 elements incl. homogeneous series with inf / nan / -0.0. Held-on-what-was-observed, not a proof.')
 LEVEL_NOTE = 'Trusts CPython eval/ast and the canonicaliser in vlib/values.py; configurations are sampled (boundary widths L-1..L+1 always included).'
 ANCHORS = ['prettyprinter.pretty_bracketable_iterable', 'prettyprinter.pretty_dict', 'prettyprinter.pretty_frozenset', 'prettyprinter.pretty_float', 'prettyprinter.pretty_str', 'prettyprinter.str_to_lines', 'prettyprinter.escape_str_for_quote', 'prettyprinter._AlwaysSortable.__lt__', 'layout.best_layout', 'render.default_render_to_stream']
